@@ -1,8 +1,9 @@
 #!/usr/bin/env python3
-"""benign_import.py <ID> <worktree> — store the behaviour-preserving refactorings a sub-agent wrote under
+"""benign_import.py <ID> <worktree> [tag] — store the behaviour-preserving refactorings a sub-agent wrote under
 <worktree>/BENIGN/r*.diff as benign variants mutants/<ID>/benign-agent-r<i>.patch (expect: silent, run against every check)."""
 import sys, os, json, glob
 pid, wt = sys.argv[1], sys.argv[2]
+tag = sys.argv[3] if len(sys.argv) > 3 else "agent"
 ALL = ",".join("C%02d" % n for n in range(1, 19))
 meta = {}
 try:
@@ -21,7 +22,7 @@ for f in sorted(glob.glob(os.path.join(wt, "BENIGN", "r*.diff"))):
     hdr = "# expect: silent\n# props: %s\n# kind: %s\n# functions: %s\n# why: %s\n" % (
         ALL, str(m.get("kind", "?")).replace("\n", " ")[:200], ", ".join(m.get("functions", []))[:300],
         str(m.get("why_behaviour_preserving", "")).replace("\n", " ")[:400])
-    out = "/verif/mutants/%s/benign-agent-%s.patch" % (pid, b.replace(".diff", ""))
+    out = "/verif/mutants/%s/benign-%s-%s.patch" % (pid, tag, b.replace(".diff", ""))
     open(out, "w").write(hdr + body)
     n += 1
 print(pid, "imported", n)
